@@ -529,5 +529,61 @@ Proof.
     destruct (iv_pend _ _ HI th' k Hs) as (y & Hy & Hst & Hb & Hp).
     destruct (Hkeep y Hy Hst Hb) as (y' & Hy' & Hst' & Hb' & Er). exists y'. repeat split; auto. rewrite Er. exact Hp.
 Qed.
+
+Lemma step_core_inst_bwd s th e s' : step_core s th e = Some s' -> own_ev e = false ->
+  forall j x', get j (insts s') = Some x' ->
+  (exists x, get j (insts s) = Some x /\ imono x x') \/
+  (get j (insts s) = None /\ exists n c, e = ENewInst j n /\ get n (confs s) = Some c /\ x' = new_inst n c).
+Proof.
+  intros H Hev j x' Hx'. destruct (get j (insts s)) as [x|] eqn:Hx.
+  - left. destruct (step_core_inst _ _ _ _ H Hev j x Hx) as (x2 & Hx2 & L). exists x. split; [reflexivity|]. congruence.
+  - right. split; [reflexivity|]. destruct (frame_ev e) eqn:Hf.
+    { destruct (csame_bwd _ _ _ _ (step_core_csame _ _ _ _ Hf H) Hx') as (x & Hx0 & _). congruence. }
+    unfold step_core in H. destruct e; try discriminate Hev; try discriminate Hf; kind_cases H.
+    all: unfold set_pc, end_finish in Hx'; cbn in Hx'; autorewrite with sup in Hx'.
+    all: repeat match type of Hx' with context[if ?b then _ else _] => is_var b; destruct b end; autorewrite with sup in Hx'.
+    all: try rewrite get_set in Hx'.
+    all: repeat match type of Hx' with context[N.eqb ?a ?b] => destruct (N.eqb_spec a b); [subst b|] end.
+    all: rewrite ?Hx in Hx'; try discriminate Hx'.
+    all: try match goal with E : get ?i (insts _) = Some ?y |- _ => rewrite E in Hx; discriminate Hx end.
+    injection Hx' as <-. eauto.
+Qed.
+
+Lemma existsb_false_in {A} (f : A -> bool) l : existsb f l = false -> forall a, In a l -> f a = false.
+Proof.
+  intros H a Ha. destruct (f a) eqn:E; [|reflexivity]. rewrite <- H. symmetry. apply existsb_exists. eauto.
+Qed.
+
+Lemma W_newinst o th i n : W_C03 (obs_pre cs o (th, ENewInst i n)) = false ->
+  forall j y, get j (oi o) = Some y -> o_nm y = n -> o_ended y = true /\ o_gone y = true.
+Proof.
+  unfold W_C03. cbn. intros HW j y Hy Hn.
+  repeat (apply orb_false_iff in HW; destruct HW as [HW ?]).
+  apply get_in_vals in Hy.
+  match goal with H : w_dup o || _ = false |- _ => apply orb_false_iff in H; destruct H as [_ Hd] end.
+  match goal with H : w_zombie o || _ = false |- _ => apply orb_false_iff in H; destruct H as [_ Hz] end.
+  pose proof (existsb_false_in _ _ Hd y Hy) as G1. pose proof (existsb_false_in _ _ Hz y Hy) as G2.
+  cbn in G1, G2. rewrite Hn, N.eqb_refl in G1, G2. cbn in G1, G2.
+  destruct (o_ended y); cbn in *; [|discriminate]. destruct (o_gone y); cbn in *; [auto|discriminate].
+Qed.
+
+Lemma c_name_step s o th e s' : Rc cs s o -> Inv s o -> step_core s th e = Some s' -> own_ev e = false ->
+  W_C03 (obs_pre cs o (th, e)) = false -> c_name s'.
+Proof.
+  intros HRc HI H Hev HW a b xa xb Ha Hb Hab Hn.
+  assert (Hnew : forall j y' n c k z z', e = ENewInst j n -> y' = new_inst n c -> get k (insts s) = Some z -> imono z z' ->
+                  nm y' = nm z' -> gonepc (pc z') = true).
+  { intros j y' n c k z z' -> -> Hz (En & _ & _ & _ & Hg & _) Hnn. apply Hg. cbn in Hnn.
+    destruct (rc_inst _ _ _ HRc k z Hz) as (zo & Hzo & Hnm & _).
+    destruct (W_newinst _ _ _ _ HW k zo Hzo) as [_ Hgo]; [congruence|].
+    exact (pi_gone _ _ _ (iv_inst _ _ HI k z zo Hz Hzo) Hgo). }
+  destruct (step_core_inst_bwd _ _ _ _ H Hev a xa Ha) as [(ya & Hya & La)|(Hna & n & c & -> & Hc & ->)];
+  destruct (step_core_inst_bwd _ _ _ _ H Hev b xb Hb) as [(yb & Hyb & Lb)|(Hnb & n2 & c2 & E2 & Hc2 & Exb)].
+  - destruct La as (Ena & _ & _ & _ & Hga & _). destruct Lb as (Enb & _ & _ & _ & Hgb & _).
+    destruct (iv_name _ _ HI a b ya yb Hya Hyb Hab) as [G|G]; [congruence|left; auto|right; auto].
+  - left. eapply (Hnew b xb n2 c2 a ya xa); eauto.
+  - right. eapply (Hnew a _ n c b yb xb); eauto.
+  - congruence.
+Qed.
 (*STOP*)
 End RelC03.
